@@ -125,8 +125,9 @@ func monitor(o *outcome) []finding {
 	if nWin == 0 && firstCloseCall != none {
 		closeWon = true
 		for _, id := range runIDs {
-			if r := runs[id]; r.retSeq != none && r.rej && r.retSeq < firstCloseCall {
-				closeWon = false
+			r := runs[id]
+			if r.retSeq == none || (r.rej && r.retSeq < firstCloseCall) {
+				closeWon = false // a Run call is still inside (hung), or was rejected before any Close began
 			}
 		}
 	}
